@@ -69,6 +69,15 @@ type clause struct {
 	alt bool
 }
 
+// is reports whether c and o are the same clause, i.e. copies of the result of one compilation.
+// The stored terms don't tell: duplicate facts of arity 0 are equal atoms, and a term asserted twice is one term.
+func (c *clause) is(o *clause) bool {
+	if len(c.bytecode) == 0 || len(o.bytecode) == 0 { // Not compiled. The terms are all there is.
+		return id(c.raw) == id(o.raw)
+	}
+	return &c.bytecode[0] == &o.bytecode[0]
+}
+
 func compileClause(head Term, body Term, env *Env) (clause, error) {
 	var c clause
 	c.compileHead(head, env)
